@@ -104,6 +104,17 @@ def gen(rng):
     for o in others:
         loop.insert(rng.randint(0, len(loop)), o)
     mp = {"rank-order": {}, "partitioning": {"O": part}, "loop-order": {"O": loop}}
-    return {"yaml": specgen.yaml_of(decl, [expr], mp), "syms": syms, "kind": "indexmath",
+    exprs = [expr]
+    if out_ranks and rng.random() < 0.2:
+        # a cascade: a second Einsum consumes the index-math result (its own, unpartitioned loop nest)
+        r2 = rng.choice(out_ranks)
+        decl["L"] = [r2]
+        keep = [r for r in out_ranks if rng.random() < 0.6]
+        decl["Z"] = keep
+        exprs.append("Z[%s] = O[%s] * L[%s]" % (", ".join(r.lower() for r in keep), ", ".join(r.lower() for r in out_ranks), r2.lower()))
+        lo = list(out_ranks)
+        rng.shuffle(lo)
+        mp["loop-order"]["Z"] = lo
+    return {"yaml": specgen.yaml_of(decl, exprs, mp), "syms": syms, "kind": "indexmath",
             "meta": {"expr": expr, "root": root, "big": big, "coefs": coefs, "dirs": ds, "followers": followers, "loop": loop,
                      "derived": d, "chain_rank": c}}
